@@ -77,6 +77,9 @@ Proof. unfold Rel, cw_new; cbn. destruct (b_latest c); repeat split; auto; congr
 Lemma Rel_timer c w p t : Rel c w p -> Rel c (mkCw (cw_buf w) (cw_lat w) t (cw_latestOnly w)) p.
 Proof. intros H. exact H. Qed.
 
+Lemma Rel_empty c t o : Rel c (mkCw [] [] t o) [].
+Proof. unfold Rel; cbn. destruct (b_latest c); repeat split; auto; congruence. Qed.
+
 Lemma flush_rel c w p : Rel c w p ->
   match cw_flush w with
   | (w', Some batch) => batch = flush_spec (b_latest c) p /\ Rel c w' [] /\ cw_timer w' = cw_timer w
@@ -88,13 +91,13 @@ Proof.
   - split; auto. destruct (b_latest c); [rewrite <- Hb, <- Hl|rewrite <- Hb]; reflexivity.
   - destruct (b_latest c) eqn:Ec; [|discriminate].
     assert (Hp : p <> []) by (intros ->; cbn in Hl; discriminate).
-    rewrite (Ho Hp). cbn. rewrite <- Hb, <- Hl. repeat split; auto; congruence.
+    rewrite (Ho Hp). cbn. rewrite <- Hb, <- Hl. split; [reflexivity|]. split; [apply Rel_empty|reflexivity].
   - cbn. rewrite andb_false_r. destruct (b_latest c) eqn:Ec.
-    + rewrite <- Hb, <- Hl, app_nil_r. repeat split; auto; congruence.
-    + rewrite <- Hb. repeat split; auto; congruence.
+    + rewrite <- Hb, <- Hl, app_nil_r. split; [reflexivity|]. split; [apply Rel_empty|reflexivity].
+    + rewrite <- Hb. split; [reflexivity|]. split; [apply Rel_empty|reflexivity].
   - destruct (b_latest c) eqn:Ec; [|discriminate].
     assert (Hp : p <> []) by (intros ->; cbn in Hl; discriminate).
-    rewrite (Ho Hp). cbn. rewrite <- Hb, <- Hl. repeat split; auto; congruence.
+    rewrite (Ho Hp). cbn. rewrite <- Hb, <- Hl. split; [reflexivity|]. split; [apply Rel_empty|reflexivity].
 Qed.
 
 Lemma add_rel c tm w p x : Rel c w p ->
@@ -148,7 +151,7 @@ Proof.
   { intros t o. unfold Rel; cbn. destruct (b_latest c); repeat split; auto; congruence. }
   destruct f.
   - pose proof (flush_rel c (cw_stop w) p R) as F. destruct (cw_flush (cw_stop w)) as [w1 [batch|]].
-    + destruct F as (F1 & _). repeat split; auto. apply RN.
+    + destruct F as (F1 & _). split; [reflexivity|]. split; [exact F1|apply RN].
     + apply RN.
   - apply RN.
 Qed.
@@ -187,4 +190,318 @@ Lemma stale_fire tm w : cw_timer w <> Some tm -> cw_fire tm w = (w, None).
 Proof.
   intros H. unfold cw_fire. destruct (cw_timer w) as [t|]; auto.
   destruct (t =? tm) eqn:E; auto. apply Nat.eqb_eq in E. subst. congruence.
+Qed.
+
+(* ---------------------------------------------------------------- perChannelWriter *)
+Definition dead (w : cw) : Prop := cw_buf w = [] /\ cw_lat w = [] /\ cw_timer w = None.
+Definition mapped (s : pst) (i : nat) : bool := existsb (fun ci => snd ci =? i) (p_map s).
+Definition referenced (s : pst) (i : nat) : bool := existsb (fun r => snd (snd r) =? i) (p_refs s).
+Definition out_of (i : nat) (out : list (N * nat * list citem)) := filter (fun e => snd (fst e) =? i) out.
+
+(* instance i exists, is in nobody's hands and holds nothing *)
+Definition silent (s : pst) (i : nat) : Prop :=
+  i < p_next s /\ mapped s i = false /\ referenced s i = false /\
+  exists w, lookup (p_inst s) i = Some w /\ dead w.
+
+Lemma lookupN_mapped {A} (l : list (N * A)) ch v : lookupN l ch = Some v -> In (ch, v) l.
+Proof.
+  induction l as [|[k x] l IH]; cbn; [discriminate|]. destruct (N.eqb k ch) eqn:E.
+  - apply N.eqb_eq in E. intros [= ->]. subst. auto.
+  - auto.
+Qed.
+
+Lemma mapped_in s ch i : In (ch, i) (p_map s) -> mapped s i = true.
+Proof. intros H. unfold mapped. apply existsb_exists. exists (ch, i). cbn. rewrite Nat.eqb_refl. auto. Qed.
+
+Lemma lookup_in {A} (l : list (nat * A)) k v : lookup l k = Some v -> In (k, v) l.
+Proof.
+  induction l as [|[k' x] l IH]; cbn; [discriminate|]. destruct (k' =? k) eqn:E.
+  - apply Nat.eqb_eq in E. intros [= ->]. subst. auto.
+  - auto.
+Qed.
+
+Lemma referenced_in s t ch i : In (t, (ch, i)) (p_refs s) -> referenced s i = true.
+Proof. intros H. unfold referenced. apply existsb_exists. exists (t, (ch, i)). cbn. rewrite Nat.eqb_refl. auto. Qed.
+
+Lemma existsb_filter_false {A} (f g : A -> bool) l : existsb f l = false -> existsb f (filter g l) = false.
+Proof.
+  induction l as [|x l IH]; cbn; auto. intros H. apply orb_false_iff in H. destruct H as [H1 H2].
+  destruct (g x); cbn; rewrite ?H1; auto.
+Qed.
+
+Lemma out_of_emit i out ch j b : j <> i -> out_of i (emit out ch j b) = out_of i out.
+Proof.
+  intros H. destruct b; cbn; auto. unfold out_of. rewrite filter_app. cbn.
+  replace (j =? i) with false by (symmetry; apply Nat.eqb_neq; auto). apply app_nil_r.
+Qed.
+
+(* Close visits the mapped instances only *)
+Lemma close_mapped_other flush i : forall m insts out w,
+  existsb (fun ci => snd ci =? i) m = false -> lookup insts i = Some w ->
+  let r := fold_left (fun '(insts, out) '(ch, j) =>
+               match lookup insts j with
+               | Some w => let '(w1, b) := cw_close flush w in ((j, w1) :: insts, emit out ch j b)
+               | None => (insts, out)
+               end) m (insts, out) in
+  lookup (fst r) i = Some w /\ out_of i (snd r) = out_of i out.
+Proof.
+  induction m as [|[ch j] m IH]; intros insts out w Hm Hl; cbn [fold_left]; auto.
+  cbn in Hm. apply orb_false_iff in Hm. destruct Hm as [Hj Hm]. apply Nat.eqb_neq in Hj.
+  destruct (lookup insts j) as [wj|] eqn:Ej.
+  - destruct (cw_close flush wj) as [w1 b] eqn:Ec.
+    destruct (IH ((j, w1) :: insts) (emit out ch j b) w Hm) as (A & B).
+    { cbn. replace (j =? i) with false by (symmetry; apply Nat.eqb_neq; auto). exact Hl. }
+    split; auto. rewrite B. apply out_of_emit; auto.
+  - apply IH; auto.
+Qed.
+
+(* a silent instance stays silent and emits nothing, whatever happens *)
+Lemma silent_step cf s l s' i : silent s i -> pstep cf s l = Some s' ->
+  silent s' i /\ out_of i (p_out s') = out_of i (p_out s).
+Proof.
+  intros (Hlt & Hm & Hr & w & Hw & Hd) H. destruct l; cbn [pstep] in H.
+  - (* PGet *)
+    destruct (lookup (p_refs s) t); [discriminate|].
+    destruct (lookupN (p_map s) ch) as [j|] eqn:Ej; injection H as <-; cbn.
+    + split; auto. assert (Hji : j <> i).
+      { intros ->. apply lookupN_mapped in Ej. apply mapped_in in Ej. congruence. }
+      unfold silent, mapped, referenced in *; cbn. repeat split; auto.
+      * replace (j =? i) with false by (symmetry; apply Nat.eqb_neq; auto). exact Hr.
+      * eauto.
+    + split; auto. unfold silent, mapped, referenced in *; cbn.
+      replace (p_next s =? i) with false by (symmetry; apply Nat.eqb_neq; lia).
+      repeat split; auto. exists w. split; auto.
+  - (* PAdd *)
+    destruct (lookup (p_refs s) t) as [[ch j]|] eqn:Et; [|discriminate].
+    destruct (lookup (p_inst s) j) as [wj|] eqn:Ej; [|discriminate].
+    destruct (cw_add (cf ch) (p_next s) wj x) as [[w1 b] armed]. injection H as <-.
+    assert (Hji : j <> i).
+    { intros ->. apply lookup_in in Et. apply referenced_in in Et. congruence. }
+    cbn. split; [|apply out_of_emit; auto].
+    unfold silent, mapped, referenced in *; cbn.
+    replace (j =? i) with false by (symmetry; apply Nat.eqb_neq; auto).
+    repeat split; auto.
+    + destruct armed; lia.
+    + unfold remove_k. apply existsb_filter_false. exact Hr.
+    + eauto.
+  - (* PFire *)
+    destruct (lookup (p_timers s) tm) as [j|]; [|discriminate].
+    destruct (lookup (p_inst s) j) as [wj|] eqn:Ej; [|discriminate].
+    destruct (Nat.eq_dec j i) as [->|Hji].
+    + rewrite Hw in Ej. injection Ej as <-. destruct Hd as (D1 & D2 & D3).
+      rewrite stale_fire in H by (rewrite D3; discriminate). injection H as <-. cbn.
+      split; auto. unfold silent, mapped, referenced; cbn. rewrite Nat.eqb_refl.
+      repeat split; auto. exists w. repeat split; auto.
+    + destruct (cw_fire tm wj) as [w1 b]. injection H as <-. cbn. split; [|apply out_of_emit; auto].
+      unfold silent, mapped, referenced in *; cbn.
+      replace (j =? i) with false by (symmetry; apply Nat.eqb_neq; auto). repeat split; auto. eauto.
+  - (* PCancelled *)
+    destruct (lookup (p_timers s) tm) as [j|]; [|discriminate].
+    destruct (lookup (p_inst s) j) as [wj|]; [|discriminate].
+    destruct (cw_timer wj) as [t|]; [destruct (t =? tm); [discriminate|]|]; injection H as <-; cbn;
+      (split; auto; unfold silent, mapped, referenced in *; cbn; repeat split; auto; eauto).
+  - (* PDel *)
+    destruct (lookupN (p_map s) ch) as [j|] eqn:Ej.
+    + destruct (lookup (p_inst s) j) as [wj|] eqn:Ew; [|discriminate].
+      destruct (cw_close flush wj) as [w1 b]. injection H as <-.
+      assert (Hji : j <> i).
+      { intros ->. apply lookupN_mapped in Ej. apply mapped_in in Ej. congruence. }
+      cbn. split; [|apply out_of_emit; auto].
+      unfold silent, mapped, referenced in *; cbn.
+      replace (j =? i) with false by (symmetry; apply Nat.eqb_neq; auto). repeat split; auto.
+      * unfold removeN. apply existsb_filter_false. exact Hm.
+      * eauto.
+    + injection H as <-. split; auto. unfold silent. repeat split; auto. eauto.
+  - (* PClose *)
+    destruct (close_mapped flush s) as [insts out] eqn:Ec. injection H as <-. cbn.
+    unfold close_mapped in Ec.
+    destruct (close_mapped_other flush i (p_map s) (p_inst s) (p_out s) w Hm Hw) as (A & B).
+    rewrite Ec in A, B. cbn in A, B. split; auto.
+    unfold silent, mapped, referenced in *; cbn. repeat split; auto. eauto.
+Qed.
+
+Lemma silent_run cf sched : forall s s' i, silent s i -> prun cf s sched = Some s' ->
+  silent s' i /\ out_of i (p_out s') = out_of i (p_out s).
+Proof.
+  induction sched as [|l sched IH]; intros s s' i Hs; cbn [prun].
+  - intros [= <-]. auto.
+  - destruct (pstep cf s l) as [s1|] eqn:E; [|discriminate]. intros H.
+    destruct (silent_step cf s l s1 i Hs E) as (S1 & O1).
+    destruct (IH s1 s' i S1 H) as (S2 & O2). split; auto. congruence.
+Qed.
+
+(* well-formedness of the tables *)
+Definition WFp (s : pst) : Prop :=
+  NoDup (map snd (p_map s)) /\
+  (forall ch i, In (ch, i) (p_map s) -> i < p_next s /\ lookup (p_inst s) i <> None) /\
+  (forall i w, lookup (p_inst s) i = Some w -> i < p_next s).
+
+Lemma WFp_init : WFp p_init.
+Proof. unfold WFp, p_init; cbn. repeat split; try constructor; try contradiction; discriminate. Qed.
+
+Lemma in_filter_map {A} (f : N * A -> bool) l : incl (filter f l) l.
+Proof. intros x H. apply filter_In in H. apply H. Qed.
+
+Lemma NoDup_map_filter {A B} (g : A -> B) (f : A -> bool) l : NoDup (map g l) -> NoDup (map g (filter f l)).
+Proof.
+  induction l as [|x l IH]; cbn; auto. intros H. inversion H; subst. destruct (f x); cbn; auto.
+  constructor; auto. intros Hin. apply H2. apply in_map_iff in Hin. destruct Hin as (y & E & Hy).
+  apply filter_In in Hy. apply in_map_iff. exists y. split; auto. apply Hy.
+Qed.
+
+Lemma close_mapped_keeps flush : forall m insts out i,
+  lookup insts i <> None ->
+  lookup (fst (fold_left (fun '(insts, out) '(ch, j) =>
+               match lookup insts j with
+               | Some w => let '(w1, b) := cw_close flush w in ((j, w1) :: insts, emit out ch j b)
+               | None => (insts, out)
+               end) m (insts, out))) i <> None.
+Proof.
+  induction m as [|[ch j] m IH]; intros insts out i H; cbn [fold_left]; auto.
+  destruct (lookup insts j) as [wj|] eqn:Ej; [|apply IH; auto].
+  destruct (cw_close flush wj) as [w1 b]. apply IH. cbn. destruct (j =? i); [discriminate|auto].
+Qed.
+
+Lemma close_mapped_bound flush n : forall m insts out,
+  (forall i w, lookup insts i = Some w -> i < n) -> (forall ch i, In (ch, i) m -> i < n) ->
+  forall i w, lookup (fst (fold_left (fun '(insts, out) '(ch, j) =>
+               match lookup insts j with
+               | Some w => let '(w1, b) := cw_close flush w in ((j, w1) :: insts, emit out ch j b)
+               | None => (insts, out)
+               end) m (insts, out))) i = Some w -> i < n.
+Proof.
+  induction m as [|[ch j] m IH]; intros insts out H Hm i w; cbn [fold_left]; [apply H|].
+  destruct (lookup insts j) as [wj|] eqn:Ej.
+  - destruct (cw_close flush wj) as [w1 b]. apply IH.
+    + intros i0 w0. cbn. destruct (j =? i0) eqn:E; [apply Nat.eqb_eq in E; subst; intros _; apply (Hm ch); left; auto|apply H].
+    + intros ch0 i0 Hin. apply (Hm ch0). right; auto.
+  - apply IH; auto. intros ch0 i0 Hin. apply (Hm ch0). right; auto.
+Qed.
+
+Lemma WFp_step cf s l s' : WFp s -> pstep cf s l = Some s' -> WFp s'.
+Proof.
+  intros (ND & Hm & Hi) H. destruct l; cbn [pstep] in H.
+  - destruct (lookup (p_refs s) t); [discriminate|].
+    destruct (lookupN (p_map s) ch) as [j|] eqn:Ej; injection H as <-; unfold WFp; cbn.
+    + auto.
+    + split; [|split].
+      * constructor; auto. intros Hin. apply in_map_iff in Hin. destruct Hin as ([c k] & E & Hk). cbn in E. subst k.
+        destruct (Hm c _ Hk). lia.
+      * intros c i [E|Hin].
+        -- injection E as <- <-. rewrite Nat.eqb_refl. split; [lia|discriminate].
+        -- destruct (Hm c i Hin) as (A & B). split; [lia|]. destruct (p_next s =? i); [discriminate|auto].
+      * intros i w. destruct (p_next s =? i) eqn:E; [apply Nat.eqb_eq in E; lia|]. intros Hl. specialize (Hi i w Hl). lia.
+  - destruct (lookup (p_refs s) t) as [[ch j]|]; [|discriminate].
+    destruct (lookup (p_inst s) j) as [wj|] eqn:Ej; [|discriminate].
+    destruct (cw_add (cf ch) (p_next s) wj x) as [[w1 b] armed]. injection H as <-. unfold WFp; cbn.
+    split; auto. split.
+    + intros c i Hin. destruct (Hm c i Hin) as (A & B). split; [destruct armed; lia|]. destruct (j =? i); [discriminate|auto].
+    + intros i w. destruct (j =? i) eqn:E.
+      * apply Nat.eqb_eq in E. subst. intros _. specialize (Hi _ _ Ej). destruct armed; lia.
+      * intros Hl. specialize (Hi i w Hl). destruct armed; lia.
+  - destruct (lookup (p_timers s) tm) as [j|]; [|discriminate].
+    destruct (lookup (p_inst s) j) as [wj|] eqn:Ej; [|discriminate].
+    destruct (cw_fire tm wj) as [w1 b]. injection H as <-. unfold WFp; cbn. split; auto. split.
+    + intros c i Hin. destruct (Hm c i Hin) as (A & B). split; auto. destruct (j =? i); [discriminate|auto].
+    + intros i w. destruct (j =? i) eqn:E; [apply Nat.eqb_eq in E; subst; intros _; apply (Hi _ _ Ej)|apply Hi].
+  - destruct (lookup (p_timers s) tm) as [j|]; [|discriminate].
+    destruct (lookup (p_inst s) j) as [wj|]; [|discriminate].
+    destruct (cw_timer wj) as [t|]; [destruct (t =? tm); [discriminate|]|]; injection H as <-; unfold WFp; cbn; auto.
+  - destruct (lookupN (p_map s) ch) as [j|] eqn:Ej.
+    + destruct (lookup (p_inst s) j) as [wj|] eqn:Ew; [|discriminate].
+      destruct (cw_close flush wj) as [w1 b]. injection H as <-. unfold WFp; cbn. split; [|split].
+      * unfold removeN. apply NoDup_map_filter. exact ND.
+      * intros c i Hin. unfold removeN in Hin. apply filter_In in Hin. destruct Hin as (Hin & _).
+        destruct (Hm c i Hin) as (A & B). split; auto. destruct (j =? i); [discriminate|auto].
+      * intros i w. destruct (j =? i) eqn:E; [apply Nat.eqb_eq in E; subst; intros _; apply (Hi _ _ Ew)|apply Hi].
+    + injection H as <-. unfold WFp. auto.
+  - destruct (close_mapped flush s) as [insts out] eqn:Ec. injection H as <-. unfold WFp; cbn.
+    unfold close_mapped in Ec. split; auto. split.
+    + intros c i Hin. destruct (Hm c i Hin) as (A & B). split; auto.
+      pose proof (close_mapped_keeps flush (p_map s) (p_inst s) (p_out s) i B) as K. rewrite Ec in K. exact K.
+    + intros i w Hl.
+      pose proof (close_mapped_bound flush (p_next s) (p_map s) (p_inst s) (p_out s) Hi (fun c k Hk => proj1 (Hm c k Hk)) i w) as K.
+      rewrite Ec in K. apply K. exact Hl.
+Qed.
+
+Lemma WFp_run cf sched : forall s s', WFp s -> prun cf s sched = Some s' -> WFp s'.
+Proof.
+  induction sched as [|l sched IH]; intros s s' W; cbn [prun].
+  - intros [= <-]. auto.
+  - destruct (pstep cf s l) as [s1|] eqn:E; [|discriminate]. intros H.
+    eapply IH; [eapply WFp_step; eauto|exact H].
+Qed.
+
+Lemma cw_close_false_dead w : dead (fst (cw_close false w)).
+Proof. unfold cw_close, dead; cbn. auto. Qed.
+
+(* "Nothing buffered for a channel is delivered after the subscription ended":
+   once delWriter(ch, false) has run, the writer instance that served ch never calls flushFn again --
+   provided no perChannelWriter.Add call that obtained this instance is still in flight. *)
+Theorem nothing_after_unsubscribe cf sched1 s1 ch i s2 sched2 s3 :
+  prun cf p_init sched1 = Some s1 ->
+  lookupN (p_map s1) ch = Some i -> referenced s1 i = false ->
+  pstep cf s1 (PDel ch false) = Some s2 -> prun cf s2 sched2 = Some s3 ->
+  out_of i (p_out s3) = out_of i (p_out s1).
+Proof.
+  intros H1 Hm Hr H2 H3.
+  pose proof (WFp_run cf sched1 _ _ WFp_init H1) as (ND & HM & HI).
+  assert (Hin : In (ch, i) (p_map s1)) by (apply lookupN_mapped; auto).
+  destruct (HM ch i Hin) as (Hlt & Hex).
+  cbn [pstep] in H2. rewrite Hm in H2. destruct (lookup (p_inst s1) i) as [w|] eqn:Ew; [|congruence].
+  pose proof (cw_close_false_dead w) as Hd. destruct (cw_close false w) as [w1 b] eqn:Ec. cbn in Hd.
+  assert (b = None) by (unfold cw_close in Ec; cbn in Ec; congruence). subst b.
+  injection H2 as <-.
+  assert (Hs : silent (mkP (removeN (p_map s1) ch) ((i, w1) :: p_inst s1) (p_ich s1) (p_refs s1) (p_timers s1)
+                           (p_next s1) (emit (p_out s1) ch i None)) i).
+  { unfold silent, mapped, referenced; cbn. rewrite Nat.eqb_refl. repeat split; auto.
+    - (* no other channel maps to i *)
+      clear - ND Hin. unfold removeN. induction (p_map s1) as [|[c k] m IH]; cbn; auto.
+      cbn in ND. inversion ND; subst. destruct Hin as [E|Hin].
+      + injection E as -> ->. rewrite N.eqb_refl. cbn.
+        apply existsb_filter_false. destruct (existsb (fun ci => snd ci =? i) m) eqn:E; auto.
+        apply existsb_exists in E. destruct E as ([c' k'] & Hk & Ek). cbn in Ek. apply Nat.eqb_eq in Ek. subst k'.
+        exfalso. apply H1. apply in_map_iff. exists (c', i). auto.
+      + destruct (N.eqb c ch); cbn; [apply IH; auto|].
+        replace (k =? i) with false; [apply IH; auto|]. symmetry. apply Nat.eqb_neq. intros ->.
+        apply H1. apply in_map_iff. exists (ch, i). auto.
+    - exists w1. auto. }
+  destruct (silent_run cf sched2 _ s3 i Hs H3) as (_ & O). rewrite O. reflexivity.
+Qed.
+
+(* Close(false) empties every writer that is in the map *)
+Lemma close_mapped_dead : forall m insts out,
+  NoDup (map snd m) -> (forall ch i, In (ch, i) m -> lookup insts i <> None) ->
+  forall ch i, In (ch, i) m ->
+  exists w, lookup (fst (fold_left (fun '(insts, out) '(ch, j) =>
+               match lookup insts j with
+               | Some w => let '(w1, b) := cw_close false w in ((j, w1) :: insts, emit out ch j b)
+               | None => (insts, out)
+               end) m (insts, out))) i = Some w /\ dead w.
+Proof.
+  induction m as [|[c j] m IH]; intros insts out ND Hex ch i Hin; [contradiction|]. cbn [fold_left].
+  cbn in ND. inversion ND; subst.
+  destruct (lookup insts j) as [wj|] eqn:Ej; [|exfalso; apply (Hex c j); [left; auto|exact Ej]].
+  destruct (cw_close false wj) as [w1 b] eqn:Ec.
+  destruct Hin as [E|Hin].
+  - injection E as -> ->.
+    assert (Hni : existsb (fun ci => snd ci =? i) m = false).
+    { destruct (existsb (fun ci => snd ci =? i) m) eqn:E; auto. apply existsb_exists in E.
+      destruct E as ([c' k'] & Hk & Ek). cbn in Ek. apply Nat.eqb_eq in Ek. subst k'.
+      exfalso. apply H1. apply in_map_iff. exists (c', i). auto. }
+    destruct (close_mapped_other false i m ((i, w1) :: insts) (emit out ch i b) w1 Hni) as (A & _).
+    { cbn. rewrite Nat.eqb_refl. reflexivity. }
+    exists w1. split; [exact A|]. pose proof (cw_close_false_dead wj) as D. rewrite Ec in D. exact D.
+  - apply IH with (ch := ch); auto. intros c0 i0 Hin0. cbn. destruct (j =? i0); [discriminate|]. apply (Hex c0). right; auto.
+Qed.
+
+Theorem close_clears cf sched s s' :
+  prun cf p_init sched = Some s -> pstep cf s (PClose false) = Some s' ->
+  forall ch i, In (ch, i) (p_map s') -> exists w, lookup (p_inst s') i = Some w /\ dead w.
+Proof.
+  intros H1 H2 ch i Hin. pose proof (WFp_run cf sched _ _ WFp_init H1) as (ND & HM & HI).
+  cbn [pstep] in H2. destruct (close_mapped false s) as [insts out] eqn:Ec. injection H2 as <-. cbn in *.
+  unfold close_mapped in Ec.
+  destruct (close_mapped_dead (p_map s) (p_inst s) (p_out s) ND (fun c k Hk => proj2 (HM c k Hk)) ch i Hin) as (w & A & D).
+  rewrite Ec in A. eauto.
 Qed.
